@@ -108,6 +108,29 @@ def cross_read():
                     if isinstance(m, ast.FunctionDef) and m.name == "__exit__":
                         confirmed = any(isinstance(c, ast.Call) and isinstance(c.func, ast.Attribute) and c.func.attr == "close" for c in ast.walk(m))
     facts["trio.MemorySendChannel.__exit__ closes the channel"] = confirmed
+    # --- asyncio.Future.set_exception refuses a StopIteration (TypeError inside the caller)
+    stdlib = sysconfig.get_paths().get("stdlib", "")
+    tree = _parse(os.path.join(stdlib, "asyncio/futures.py")) if stdlib else None
+    confirmed = None
+    if tree is not None:
+        confirmed = False
+        for n in ast.walk(tree):
+            if isinstance(n, ast.FunctionDef) and n.name == "set_exception":
+                for t in ast.walk(n):
+                    if isinstance(t, ast.If) and "StopIteration" in ast.unparse(t.test) and any(isinstance(r, ast.Raise) and "TypeError" in ast.unparse(r) for r in ast.walk(t)):
+                        confirmed = True
+    facts["asyncio.Future.set_exception raises TypeError for a StopIteration"] = confirmed
+    # --- concurrent.futures.Future.result() tests the stored exception for TRUTH before raising it
+    tree = _parse(os.path.join(stdlib, "concurrent/futures/_base.py")) if stdlib else None
+    confirmed = None
+    if tree is not None:
+        confirmed = False
+        for n in ast.walk(tree):
+            if isinstance(n, ast.FunctionDef) and "get_result" in n.name:
+                for t in ast.walk(n):
+                    if isinstance(t, ast.If) and isinstance(t.test, ast.Attribute) and t.test.attr == "_exception":
+                        confirmed = True
+    facts["concurrent.futures.Future.result raises the stored exception only if it is truthy"] = confirmed
     # --- yaml loaders
     tree = _parse(os.path.join(sp, "yaml/loader.py")) if sp else None
     confirmed = None
@@ -211,3 +234,35 @@ def yaml_merge_skips_tags():
             splices = "value_node.value" in src or "subnode.value" in src
             return splices and not dispatches
     return None
+
+
+def yaml_tag_skipping_consumers():
+    """{consumer: True|False|None}: places where the installed SafeConstructor uses a child node of a collection WITHOUT
+    constructing it (so the child's tag is never dispatched, not even to the rejecting catch-all), and whether every node of
+    a document is composed through Composer.compose_node (the one place a loader can look at each node's tag).
+    True = confirmed by reading the installed source, None = source absent"""
+    sp = _site_packages()
+    out = {}
+    tree = _parse(os.path.join(sp, "yaml/constructor.py")) if sp else None
+    names = {"construct_scalar (the value of a `=` key)": "construct_scalar", "construct_yaml_omap (the one-pair mappings of !!omap)": "construct_yaml_omap", "construct_yaml_pairs (the one-pair mappings of !!pairs)": "construct_yaml_pairs"}
+    for label, fn in names.items():
+        ok = None
+        if tree is not None:
+            ok = False
+            for c in tree.body:
+                if isinstance(c, ast.ClassDef) and c.name == "SafeConstructor":
+                    for m in c.body:
+                        if isinstance(m, ast.FunctionDef) and m.name == fn:
+                            src = ast.unparse(m)
+                            if fn == "construct_scalar":
+                                ok = "tag:yaml.org,2002:value" in src and "construct_scalar(value_node)" in src
+                            else:
+                                ok = "subnode.value[0]" in src and "construct_object(subnode" not in src
+        out[label] = ok
+    tree = _parse(os.path.join(sp, "yaml/composer.py")) if sp else None
+    ok = None
+    if tree is not None:
+        src = ast.unparse(tree)
+        ok = "self.compose_node(None, None)" in src and "self.compose_node(node, index)" in src and "self.compose_node(node, None)" in src and "self.compose_node(node, item_key)" in src
+    out["Composer composes the root, every sequence item, every mapping key and value through compose_node(parent, index); a key has index None"] = ok
+    return out
